@@ -445,7 +445,11 @@ type SolverStats struct {
 var stats = SolverStats{Calls: map[string]int{}, Unsat: map[string]int{}, Seconds: map[string]float64{}}
 
 func runSolver(s SolverCfg, file string, timeoutS int) (string, string, float64) {
-	ctx, cancel := context.WithTimeout(context.Background(), time.Duration(timeoutS+2)*time.Second)
+	return runSolverCtx(context.Background(), s, file, timeoutS)
+}
+
+func runSolverCtx(parent context.Context, s SolverCfg, file string, timeoutS int) (string, string, float64) {
+	ctx, cancel := context.WithTimeout(parent, time.Duration(timeoutS+2)*time.Second)
 	defer cancel()
 	args := s.Args(file, timeoutS)
 	cmd := exec.CommandContext(ctx, args[0], args[1:]...)
@@ -500,6 +504,45 @@ func Discharge(vc *VC, pre string, dir string, timeoutS int, needTwo bool) {
 		want = "sat"
 	}
 	vc.Result = "unknown"
+	if !needTwo {
+		// quick tier: the solvers race on the query (which of them decides an obligation first
+		// varies from query to query; a sequential portfolio pays every loser's timeout first)
+		type ans struct {
+			name, res, out string
+			dt             float64
+		}
+		ctx, cancelAll := context.WithCancel(context.Background())
+		ch := make(chan ans, len(solvers))
+		t0 := time.Now()
+		for _, s := range solvers {
+			go func(s SolverCfg) {
+				res, out, dt := runSolverCtx(ctx, s, file, timeoutS)
+				ch <- ans{s.Name, res, out, dt}
+			}(s)
+		}
+		var firstOut string
+		for range solvers {
+			a := <-ch
+			if a.res == "sat" || a.res == "unsat" {
+				vc.Result, vc.Solver, vc.Agree = a.res, a.name, 1
+				if a.res == "sat" {
+					vc.Model = a.out
+				}
+				break
+			}
+			if firstOut == "" && a.res != "timeout" {
+				firstOut = a.name + ": " + a.res + ": " + truncate(a.out, 400)
+			} else if firstOut == "" {
+				firstOut = a.name + ": timeout"
+			}
+		}
+		cancelAll()
+		vc.Seconds += time.Since(t0).Seconds()
+		if vc.Result == "unknown" {
+			vc.Model = firstOut
+		}
+		return
+	}
 	agree := 0
 	var firstOut string
 	order := solvers
